@@ -184,7 +184,7 @@ func runC01(c *Ctx) {
 	c.ruleRoute(a)
 	c.ruleFanout(a)
 	c.ruleStep(a)
-	c.ruleLink()
+	c.ruleLink("C01.link")
 	c.ruleGraphMap("C01.range", "")
 	// the list a Send traverses is the one linked, at registration, from the nodes registered
 	// under the definition's ids at that moment (shares the commit rule of C05/C07)
@@ -201,9 +201,8 @@ func runC01(c *Ctx) {
 // fresh linkedNode {that element, ids[k+1]} becomes the ONLY successor of the
 // previous one; the root is returned. Index arithmetic is compared as value
 // origins (same induction variable), not as text.
-func (c *Ctx) ruleLink() {
+func (c *Ctx) ruleLink(rule string) {
 	p, r := c.P, c.R
-	const rule = "C01.link"
 	fn := c.Fn(rule, PkgRoot, "", "linkNodes")
 	if fn == nil {
 		return
